@@ -171,6 +171,8 @@ class Adapter:
                 sgran = r.choice([x for x in (8, 16, 32, 64) if x <= gran])
                 sdw = sgran
                 saw = r.randint(max(1, lg(g)), max(1, lg(g), maw - 1))
+                if g > 1 and r.random() < 0.3:
+                    saw = r.randint(1, max(1, lg(g) - 1)) if lg(g) > 1 else 1     # narrower than one decoder word
             sb = wishbone.Interface(addr_width=saw, data_width=sdw, granularity=sgran, features=featset(sf))
             sb.memory_map = MemoryMap(addr_width=max(1, saw + lg(sdw // sgran)), data_width=sgran)
             if r.random() < 0.2:
@@ -189,8 +191,6 @@ class Adapter:
                     rejected.append({"dense": int(dense), "aw": saw, "dw": sdw, "gran": sgran, "feat": sf,
                                      "addr": addr, "name": name, "after": len(subs)})
                 continue
-            if stop - start < g:
-                raise common.MachineryError("generated a window smaller than one word")
             # a window padded by the decoder's alignment holds nothing beyond the subordinate's own
             # address space: the addresses that can reach the subordinate are the first 2^aw
             subs.append({"dense": int(dense), "aw": saw, "dw": sdw, "gran": sgran, "feat": sf, "start": start,
